@@ -284,7 +284,13 @@ func isRotationSuffix(s string) bool {
 
 // clearExpiredFiles removes log files older than MaxAge.
 func (c *RollingFileAppender) clearExpiredFiles() {
-	expiration := time.Now().Add(-time.Duration(c.MaxAge) * time.Hour)
+	maxAge := time.Duration(c.MaxAge) * time.Hour
+	if maxAge/time.Hour != time.Duration(c.MaxAge) {
+		// MaxAge hours do not fit a time.Duration (about 292 years):
+		// no file can be that old, and the wrapped value must not be used.
+		return
+	}
+	expiration := time.Now().Add(-maxAge)
 	entries, _ := os.ReadDir(c.FileDir)
 	for _, entry := range entries {
 		if !entry.Type().IsRegular() {
